@@ -188,6 +188,20 @@ def decOracle (j : Json) : Except String Oracle := do
       | some l => .ok l
       | none => .error (.oracleMiss "opcodes") }
 
+/-- the opcode answers of a memo, for checking the hypothesis `OracleOK` of the round-trip theorems -/
+def decOpcodeAnswers (j : Json) : Except String (List (String × String × List Opcode)) :=
+  match j.getObjVal? "opcodes" with
+  | .ok (.arr xs) =>
+      xs.toList.mapM (fun e => match e with
+        | .arr #[.str a, .str b, .arr ocs] => do
+            let l ← ocs.toList.mapM (fun oc => match oc with
+              | .arr #[.str tag, i1, i2, j1, j2] => do
+                  pure ({ tag := tag, i1 := ← jnat i1, i2 := ← jnat i2, j1 := ← jnat j1, j2 := ← jnat j2 } : Opcode)
+              | _ => throw "bad opcode")
+            pure (a, b, l)
+        | _ => throw "bad opcodes memo")
+  | _ => pure []
+
 def decIgnVal : Json → Except String IgnVal
   | .bool true => pure .yes
   | .bool false => pure .no
@@ -478,6 +492,13 @@ def handle (req : Json) : Except String Json := do
       match doc with
       | .str s => pure (Json.mkObj [("ok", .arr ((splitLines s).map (fun l => Json.str (String.ofList l))).toArray)])
       | _ => throw "splitlines needs a string"
+  | "oracleok" => do
+      let answers ← decOpcodeAnswers (req.getObjValD "memo")
+      let bad := answers.filter (fun (a, b, ocs) => !opcodesValid a.toList b.toList ocs)
+      pure (Json.mkObj [("ok", .bool bad.isEmpty), ("checked", .num answers.length),
+                        ("first_bad", match bad with
+                          | (a, b, _) :: _ => .arr #[.str a, .str b]
+                          | [] => .null)])
   | "diff" => do
       let a ← decJ (req.getObjValD "a")
       let b ← decJ (req.getObjValD "b")
